@@ -1,4 +1,5 @@
 import Wayfind.Model.Router
+import Wayfind.Model.Messages
 import Wayfind.Spec.Grammar
 import Wayfind.Spec.Fault
 import Wayfind.Model.Errors
@@ -90,18 +91,18 @@ def showParsed (r : Except TErr (List (Bytes × List Part))) : String :=
 def showInsert : Except InsertErr Router → String
   | .ok _ => "ok"
   | .error (.template e) => "err Template " ++ showTErr e ++ " R=" ++ hex e.render
-  | .error (.unknownConstraint c) => "err UnknownConstraint " ++ hex c
-  | .error (.conflict t cs) => "err Conflict " ++ hex t ++ " " ++ ",".intercalate (cs.map hex)
+  | .error (.unknownConstraint c) => "err UnknownConstraint " ++ hex c ++ " R=" ++ hex (renderUnknownConstraint c)
+  | .error (.conflict t cs) => "err Conflict " ++ hex t ++ " " ++ ",".intercalate (cs.map hex) ++ " R=" ++ hex (renderConflict t cs)
 
 def showDelete : Except DeleteErr Nat → String
   | .ok d => s!"ok {d}"
   | .error (.template e) => "err Template " ++ showTErr e ++ " R=" ++ hex e.render
-  | .error (.notFound t) => "err NotFound " ++ hex t
-  | .error (.mismatch t i) => "err Mismatch " ++ hex t ++ " " ++ hex i
+  | .error (.notFound t) => "err NotFound " ++ hex t ++ " R=" ++ hex (renderNotFound t)
+  | .error (.mismatch t i) => "err Mismatch " ++ hex t ++ " " ++ hex i ++ " R=" ++ hex (renderMismatch t i)
 
 def showConstraint : Except ConstraintErr Router → String
   | .ok _ => "ok"
-  | .error (.duplicateName n a b) => s!"err DuplicateName {hex n} {hex a} {hex b}"
+  | .error (.duplicateName n a b) => s!"err DuplicateName {hex n} {hex a} {hex b} R={hex (renderDuplicateName n a b)}"
 
 def showMatch : Option Match → String
   | none => "none"
